@@ -148,12 +148,12 @@ class Module(object):
                 return 2
             if b <= 32:
                 return 4
-            return 8 if self.ptr_bytes == 8 or not self.i64_align4 else 4
+            return 4 if self.i64_align4 else 8
         if k == 'fl':
             if t[1] == 32:
                 return 4
             if t[1] == 64:
-                return 8 if self.ptr_bytes == 8 or not self.i64_align4 else 4
+                return 4 if self.f64_align4 else 8
             return 16
         if k == 'p':
             return self.ptr_bytes
@@ -171,6 +171,7 @@ class Module(object):
         raise ParseError('alignof %r' % (t,))
 
     i64_align4 = False
+    f64_align4 = False
 
     def sizeof(self, t):
         t = self.resolve(t)
@@ -623,8 +624,9 @@ def parse_module(text, source=''):
                 mi = re.match(r'^i64:(\d+)', p)
                 if mi:
                     m.i64_align4 = int(mi.group(1)) == 32
-            if m.ptr_bytes == 4 and not any(re.match(r'^i64:', p) for p in parts):
-                m.i64_align4 = False
+            if not any(re.match(r'^i64:', p) for p in parts):
+                m.i64_align4 = True         # LLVM's default data layout: i64:32:64 (i386 relies on it)
+            m.f64_align4 = any(re.match(r'^f64:32', p) for p in parts)
             continue
         if s.startswith('target triple'):
             m.triple = s.split('"')[1]
